@@ -271,6 +271,12 @@ def run_pipe(scratch, obls, jobs, mem_gb, harness_timeout):
             where = "%s (%s:%s)" % (loc.get("function"), os.path.basename(loc.get("file") or "?"), loc.get("line"))
             if kind == "unwind":
                 inconcl.append("unwinding bound too small: %s in %s" % (desc, where))
+            elif kind == "unsupported" and "pointer to unallocated memory" in desc:
+                # Kani's same_allocation model cannot reason about pointers CBMC believes unallocated.  Safe Rust (no unsafe
+                # in /repo, std trusted) never does pointer arithmetic on unallocated memory, so these paths are artefacts of
+                # CBMC's pointer abstraction; Kani assumes them away after the check.  Accepted as model noise ONLY when the
+                # obligation carries reachability covers and all of them are satisfied (vacuity guard, checked below).
+                noise.append("UNALLOCATED-POINTER-MODEL: " + desc)
             elif kind == "unsupported":
                 inconcl.append("unsupported construct reachable: %s in %s" % (desc, where))
             elif os.path.basename(loc.get("file") or "") == "kani_lib.c" or desc in MODEL_NOISE or (
@@ -284,6 +290,8 @@ def run_pipe(scratch, obls, jobs, mem_gb, harness_timeout):
                 m = PROP_RE.match(desc)
                 fails.append({"props": m.group(1).split("/") if m else None, "description": desc, "location": loc, "category": kind})
         st = r["status"]
+        if any(x.startswith("UNALLOCATED-POINTER-MODEL") for x in noise) and (covers == 0 or covers_bad):
+            inconcl.append("paths were cut by Kani's unallocated-pointer model and the obligation has no (or unsatisfied) reachability covers")
         if st == "Failure" and not fails and not inconcl:
             st = "Success"  # only allocator-model noise failed
         if st in ("Timeout", "OutOfMemory", "Error"):
